@@ -309,7 +309,7 @@ def worker():
             frames = []
             for n in range(1, spec["n"] + 1):
                 full = ALPHA[kind]
-                alpha_n = full if (len(full) * 2) ** n <= 4000 else full[:4]
+                alpha_n = full if (len(full) * 2) ** n <= 5000 else full[:4]
                 for toks in itertools.product(alpha_n, repeat=n):
                     for groups in itertools.product([1, 2], repeat=n):
                         frames.append((list(toks), list(groups)))
